@@ -59,7 +59,7 @@ type ndRec struct {
 	Kind string `json:"kind"` // f64, byte, bool, int, choice
 	term *Term
 	Bits uint64 `json:"bits"`
-	conc bool // Bits is already final (choices)
+	conc bool   // Bits is already final (choices)
 }
 
 type Violation struct {
@@ -90,39 +90,41 @@ type pathState struct {
 
 	// value-set fast path: domains of small variables constrained only by
 	// single-variable conjuncts
-	dom       map[*Term]*[4]uint64
-	entangled map[*Term]bool
+	dom          map[*Term]*[4]uint64
+	entangled    map[*Term]bool
 	entangledAll bool
+	pcFP         bool
 }
 
 // Stats are aggregated over all workers.
 type Stats struct {
-	Paths            int            `json:"paths"`
-	PathsByEnd       map[string]int `json:"paths_by_end"`
-	Decisions        int            `json:"symbolic_branch_decisions"`
-	FastDecisions    int            `json:"value_set_decisions"`
-	DischargedFast   int            `json:"discharged_value_set"`
-	Forks            int            `json:"forks"`
-	Obligations      int            `json:"obligations"`
-	DischargedConc   int            `json:"discharged_concrete_or_simplifier"`
-	DischargedUnsat  int            `json:"discharged_unsat"`
-	Violated         int            `json:"violated_sat"`
-	Inconclusive     int            `json:"inconclusive"`
-	SolverSat        int            `json:"solver_sat"`
-	SolverUnsat      int            `json:"solver_unsat"`
-	SolverUnknown    int            `json:"solver_unknown"`
-	SolverWallS      float64        `json:"solver_wall_s"`
-	SolverErrors     []string       `json:"solver_errors,omitempty"`
-	Steps            int64          `json:"ssa_instructions"`
-	Reached          map[string]int `json:"reach_markers"`
-	Unsupported      map[string]int `json:"unsupported_reasons,omitempty"`
-	BoundExceeded    map[string]int `json:"bound_exceeded,omitempty"`
-	Funcs            map[string]int `json:"functions_encoded"`
-	Models           map[string]int `json:"models_used"`
-	AssertIDs        map[string]int `json:"assert_ids"`
-	KnownRegionPaths int            `json:"paths_ended_in_known_region"`
-	Samples          []Sample       `json:"samples"`
-	MaxCallDepth     int            `json:"max_call_depth"`
+	Paths                  int            `json:"paths"`
+	PathsByEnd             map[string]int `json:"paths_by_end"`
+	Decisions              int            `json:"symbolic_branch_decisions"`
+	FastDecisions          int            `json:"value_set_decisions"`
+	DischargedFast         int            `json:"discharged_value_set"`
+	SkippedAfterViolations int            `json:"obligations_skipped_after_20_violations_of_same_assert"`
+	Forks                  int            `json:"forks"`
+	Obligations            int            `json:"obligations"`
+	DischargedConc         int            `json:"discharged_concrete_or_simplifier"`
+	DischargedUnsat        int            `json:"discharged_unsat"`
+	Violated               int            `json:"violated_sat"`
+	Inconclusive           int            `json:"inconclusive"`
+	SolverSat              int            `json:"solver_sat"`
+	SolverUnsat            int            `json:"solver_unsat"`
+	SolverUnknown          int            `json:"solver_unknown"`
+	SolverWallS            float64        `json:"solver_wall_s"`
+	SolverErrors           []string       `json:"solver_errors,omitempty"`
+	Steps                  int64          `json:"ssa_instructions"`
+	Reached                map[string]int `json:"reach_markers"`
+	Unsupported            map[string]int `json:"unsupported_reasons,omitempty"`
+	BoundExceeded          map[string]int `json:"bound_exceeded,omitempty"`
+	Funcs                  map[string]int `json:"functions_encoded"`
+	Models                 map[string]int `json:"models_used"`
+	AssertIDs              map[string]int `json:"assert_ids"`
+	KnownRegionPaths       int            `json:"paths_ended_in_known_region"`
+	Samples                []Sample       `json:"samples"`
+	MaxCallDepth           int            `json:"max_call_depth"`
 }
 
 type Sample struct {
@@ -144,6 +146,7 @@ func (s *Stats) merge(o *Stats) {
 	s.Decisions += o.Decisions
 	s.FastDecisions += o.FastDecisions
 	s.DischargedFast += o.DischargedFast
+	s.SkippedAfterViolations += o.SkippedAfterViolations
 	s.Forks += o.Forks
 	s.Obligations += o.Obligations
 	s.DischargedConc += o.DischargedConc
@@ -196,6 +199,7 @@ func (s *Stats) merge(o *Stats) {
 type Options struct {
 	Workers        int
 	SolverPath     string
+	CVC5Path       string
 	QueryTimeoutMs int // verdict queries
 	FeasTimeoutMs  int // feasibility queries
 	StepBudget     int // SSA instructions per path
@@ -292,6 +296,9 @@ func (i *interpreter) addPC(c *Term) {
 	}
 	p.pc = append(p.pc, c)
 	p.pcSet[c] = true
+	if c.fp {
+		p.pcFP = true
+	}
 	i.solver.push(c)
 	// maintain the value-set domains
 	if c.many {
@@ -380,6 +387,49 @@ func (i *interpreter) fastDecide(c *Term) (canT, canF, ok bool) {
 	return canT, canF, true
 }
 
+// checkSat decides pc ∧ c. Goals that involve floating point go to fresh
+// one-shot solver processes (much faster than z3's incremental core on FP);
+// everything else to the worker's incremental solver. With wantModel the
+// model of the nd variables is returned for a sat answer.
+func (i *interpreter) checkSat(c *Term, timeoutMs int, wantModel bool) (string, map[string]uint64) {
+	p := i.path
+	useStandalone := p.pcFP || (c != nil && c.fp)
+	if useStandalone {
+		var vars []*Term
+		if wantModel {
+			vars = i.ndVars()
+		}
+		r := i.solver.standalone(p.pc, c, vars, timeoutMs)
+		return r.res, r.vals
+	}
+	r := i.solver.check(c, timeoutMs, wantModel)
+	if r == "died" {
+		i.solverDied()
+		return "unknown", nil
+	}
+	if r == "sat" && wantModel {
+		vals, err := i.solver.getValues(i.ndVars())
+		i.solver.endCheck()
+		if err != nil {
+			return "unknown", nil
+		}
+		return r, vals
+	}
+	return r, nil
+}
+
+func (i *interpreter) vectorFrom(vals map[string]uint64) []ndRec {
+	out := make([]ndRec, len(i.path.nd))
+	memo := map[*Term]uint64{}
+	for k, r := range i.path.nd {
+		out[k] = ndRec{Kind: r.Kind, Bits: r.Bits}
+		if r.term != nil {
+			out[k].Bits = evalTerm(r.term, vals, memo)
+		}
+	}
+	return out
+}
+
 // branch decides a boolean term on the current path, forking if both
 // outcomes are feasible.
 func (i *interpreter) branch(c *Term) bool {
@@ -427,21 +477,13 @@ func (i *interpreter) branch(c *Term) bool {
 		}
 	}
 	i.stats.Decisions++
-	rt := i.solver.check(c, i.opts.FeasTimeoutMs, false)
-	if rt == "died" {
-		i.solverDied()
-		rt = "unknown"
-	}
+	rt, _ := i.checkSat(c, i.opts.FeasTimeoutMs, false)
 	if rt == "unsat" {
 		i.record(0)
 		i.addPC(i.tb.Not(c))
 		return false
 	}
-	rf := i.solver.check(i.tb.Not(c), i.opts.FeasTimeoutMs, false)
-	if rf == "died" {
-		i.solverDied()
-		rf = "unknown"
-	}
+	rf, _ := i.checkSat(i.tb.Not(c), i.opts.FeasTimeoutMs, false)
 	if rf == "unsat" {
 		i.record(1)
 		i.addPC(c)
@@ -494,11 +536,7 @@ func (i *interpreter) assume(c *Term, kind string) {
 			r = "unsat"
 		}
 	} else {
-		r = i.solver.check(c, i.opts.FeasTimeoutMs, false)
-	}
-	if r == "died" {
-		i.solverDied()
-		r = "unknown"
+		r, _ = i.checkSat(c, i.opts.FeasTimeoutMs, false)
 	}
 	if r == "unsat" {
 		i.record(0)
@@ -637,6 +675,14 @@ func (i *interpreter) obligation(c *Term, id string, kind string, msg string) {
 	}
 	i.stats.Obligations++
 	i.stats.AssertIDs[id]++
+	if i.alreadyViolated(id) && !c.isFalse() {
+		// enough counterexamples for this assertion are on record; do not spend
+		// solver time on more of them (stated in the evidence).
+		i.stats.SkippedAfterViolations++
+		i.record(3)
+		i.assume(c, "violated")
+		return
+	}
 	if _, canF, ok := i.fastDecide(c); ok && !canF {
 		i.stats.DischargedFast++
 		i.record(2)
@@ -644,10 +690,11 @@ func (i *interpreter) obligation(c *Term, id string, kind string, msg string) {
 	}
 	neg := i.tb.Not(c)
 	var r string
+	var vals map[string]uint64
 	if c.isFalse() {
-		r = i.solver.check(nil, i.opts.QueryTimeoutMs, true)
+		r, vals = i.checkSat(nil, i.opts.QueryTimeoutMs, true)
 	} else {
-		r = i.solver.check(neg, i.opts.QueryTimeoutMs, true)
+		r, vals = i.checkSat(neg, i.opts.QueryTimeoutMs, true)
 	}
 	switch r {
 	case "unsat":
@@ -655,19 +702,9 @@ func (i *interpreter) obligation(c *Term, id string, kind string, msg string) {
 		i.record(2)
 		return
 	case "sat":
-		vec, err := i.currentVector()
-		i.solver.endCheck()
-		if err != nil {
-			i.stats.Inconclusive++
-			i.note("model extraction failed: " + err.Error())
-		} else {
-			i.stats.Violated++
-			i.reportViolation(Violation{AssertID: id, Kind: kind, Message: msg, Vector: vec,
-				Decisions: append([]int32(nil), i.path.decisions...), Notes: append([]string(nil), i.path.notes...)})
-		}
-	case "died":
-		i.solverDied()
-		i.stats.Inconclusive++
+		i.stats.Violated++
+		i.reportViolation(Violation{AssertID: id, Kind: kind, Message: msg, Vector: i.vectorFrom(vals),
+			Decisions: append([]int32(nil), i.path.decisions...), Notes: append([]string(nil), i.path.notes...)})
 	default:
 		i.stats.Inconclusive++
 		i.inconclusive(id)
@@ -710,6 +747,13 @@ func (i *interpreter) reportViolation(v Violation) {
 	if len(sr.violations[v.AssertID]) < sr.maxPer {
 		sr.violations[v.AssertID] = append(sr.violations[v.AssertID], v)
 	}
+}
+
+func (i *interpreter) alreadyViolated(id string) bool {
+	sr := i.shared
+	sr.mu.Lock()
+	defer sr.mu.Unlock()
+	return sr.counts[id] >= 20
 }
 
 func (i *interpreter) inconclusive(id string) {
@@ -781,19 +825,16 @@ func (i *interpreter) runPath(prefix []int32) {
 	}
 	if len(st.Samples) < 6 || (end == "complete" && i.witnessLeft > 0) {
 		// produce a model of this path for the evidence samples / native validation
-		if r := i.solver.check(nil, i.opts.FeasTimeoutMs, true); r == "sat" {
-			vec, err := i.currentVector()
-			i.solver.endCheck()
-			if err == nil {
-				if len(st.Samples) < 6 {
-					st.Samples = append(st.Samples, Sample{Decisions: len(i.path.decisions), End: end + optReason(endReason), Vector: fmtVector(vec), Notes: i.path.notes})
-				}
-				if end == "complete" && i.witnessLeft > 0 {
-					i.witnessLeft--
-					i.shared.mu.Lock()
-					i.shared.witnesses = append(i.shared.witnesses, Violation{Harness: i.harness, Kind: "witness", Vector: vec})
-					i.shared.mu.Unlock()
-				}
+		if r, vals := i.checkSat(nil, i.opts.FeasTimeoutMs, true); r == "sat" {
+			vec := i.vectorFrom(vals)
+			if len(st.Samples) < 6 {
+				st.Samples = append(st.Samples, Sample{Decisions: len(i.path.decisions), End: end + optReason(endReason), Vector: fmtVector(vec), Notes: i.path.notes})
+			}
+			if end == "complete" && i.witnessLeft > 0 {
+				i.witnessLeft--
+				i.shared.mu.Lock()
+				i.shared.witnesses = append(i.shared.witnesses, Violation{Harness: i.harness, Kind: "witness", Vector: vec})
+				i.shared.mu.Unlock()
 			}
 		}
 	}
@@ -839,16 +880,12 @@ func (i *interpreter) pathPanicked(msg string) {
 	// obligation: the current path condition is satisfiable by construction.
 	i.stats.Obligations++
 	i.stats.AssertIDs["no-panic"]++
-	r := i.solver.check(nil, i.opts.QueryTimeoutMs, true)
+	r, vals := i.checkSat(nil, i.opts.QueryTimeoutMs, true)
 	if r == "sat" {
-		vec, err := i.currentVector()
-		i.solver.endCheck()
-		if err == nil {
-			i.stats.Violated++
-			i.reportViolation(Violation{AssertID: "no-panic", Kind: "panic", Message: msg, Vector: vec,
-				Decisions: append([]int32(nil), i.path.decisions...), Notes: append([]string(nil), i.path.notes...)})
-			return
-		}
+		i.stats.Violated++
+		i.reportViolation(Violation{AssertID: "no-panic", Kind: "panic", Message: msg, Vector: i.vectorFrom(vals),
+			Decisions: append([]int32(nil), i.path.decisions...), Notes: append([]string(nil), i.path.notes...)})
+		return
 	}
 	i.stats.Inconclusive++
 	i.inconclusive("no-panic")
